@@ -69,6 +69,7 @@ Fixpoint ty_eqb (a b : ty) : bool :=
   | TString d1, TString d2 => Bool.eqb d1 d2
   | TSlice e1 d1, TSlice e2 d2 => ty_eqb e1 e2 && Bool.eqb d1 d2
   | TError, TError => true
+  | TOther, TOther => true
   | _, _ => false
   end.
 
